@@ -73,11 +73,12 @@ type worker struct {
 }
 
 type Pool struct {
-	n       int
-	exe     string
-	env     []string
+	n        int
+	exe      string
+	env      []string
 	Restarts int
-	mu      sync.Mutex
+	mu       sync.Mutex
+	idle     []*worker
 }
 
 func NewPool(n int) *Pool {
@@ -86,6 +87,14 @@ func NewPool(n int) *Pool {
 }
 
 func (p *Pool) start() (*worker, error) {
+	p.mu.Lock()
+	if k := len(p.idle); k > 0 {
+		w := p.idle[k-1]
+		p.idle = p.idle[:k-1]
+		p.mu.Unlock()
+		return w, nil
+	}
+	p.mu.Unlock()
 	cmd := exec.Command(p.exe, "worker")
 	cmd.Env = p.env
 	cmd.Stderr = os.Stderr
@@ -101,6 +110,30 @@ func (p *Pool) start() (*worker, error) {
 		return nil, err
 	}
 	return &worker{cmd: cmd, in: in, out: bufio.NewReaderSize(outp, 1<<20)}, nil
+}
+
+func (p *Pool) release(w *worker) {
+	p.mu.Lock()
+	p.idle = append(p.idle, w)
+	p.mu.Unlock()
+}
+
+// Close shuts the idle workers down.
+func (p *Pool) Close() {
+	p.mu.Lock()
+	ws := p.idle
+	p.idle = nil
+	p.mu.Unlock()
+	for _, w := range ws {
+		_ = w.in.Close()
+		done := make(chan struct{})
+		go func(w *worker) { _ = w.cmd.Wait(); close(done) }(w)
+		select {
+		case <-done:
+		case <-time.After(5 * time.Second):
+			w.kill()
+		}
+	}
 }
 
 func (w *worker) kill() {
@@ -136,14 +169,7 @@ func (p *Pool) Map(kind string, jobs []any, timeout time.Duration, handle func(J
 			var w *worker
 			defer func() {
 				if w != nil {
-					_ = w.in.Close()
-					done := make(chan struct{})
-					go func() { _ = w.cmd.Wait(); close(done) }()
-					select {
-					case <-done:
-					case <-time.After(5 * time.Second):
-						w.kill()
-					}
+					p.release(w)
 				}
 			}()
 			for it := range ch {
